@@ -97,6 +97,15 @@ PROPS = {
         "trusted_base": TB_COMMON + ["exact float->decimal conversion is taken from the library itself here (verified separately under C14)"],
         "assumptions": ASSUME_COMMON + ["a numerator equal to one (inverse(), C12) is excluded except for zero divisors"],
     },
+    "C05": {
+        "rule": "EXHAUSTIVE: every string of length <= 6 (quick) / <= 7 (thorough) over the alphabet {0,1,7,+,-,.,e,E,_,x,space} through FromStr; grammar-generated numerals "
+                "(optional sign, 0..5000 integer and fraction digits with '_' separators, optional e/E exponent with sign, exponents incl. 2^63-1..2^63+2, 2^127-1, 2^127, up to 40 digits), "
+                "half of them with 1-2 byte-level mutations (inserted/replaced signs, dots, underscores, e/E, spaces, NUL, Arabic-Indic and full-width digits, stray 0xff/0xc3 bytes, deletions); "
+                "invalid UTF-8 goes through parse_bytes; other radixes through from_str_radix/parse_bytes. Observable: accepted (int, scale) or rejection; a panic would be a violation. "
+                "Non-trivial = at least two bytes.",
+        "trusted_base": TB_COMMON + ["str::from_utf8 (only valid UTF-8 reaches the parser); the model works on bytes and splits only at ASCII"],
+        "assumptions": ["the hand-written Lean model corresponds to the Rust source: checked by running both on the same generated cases, not proved"],
+    },
 }
 
 
